@@ -244,10 +244,28 @@ class MetaSim(SimEngine):
             def variants(an):
                 return [n for n in names if n == an or re.fullmatch(re.escape(an) + r"_\d+", n)]
 
+            cond_reads_unknown = [False]
+            acts = {a["name"]: a for a in last["desc"]["actions"]}
+
+            def mentions(e, names):
+                if isinstance(e, list):
+                    if e and e[0] == "f" and len(e) > 1 and e[1] in names:
+                        return True
+                    return any(mentions(c, names) for c in e)
+                return False
+
             def follow(st, idx):
                 if idx == len(plan):
-                    return True
+                    try:
+                        return rs.is_goal(st)
+                    except Ambiguous:
+                        return True
+                unknown_now = {k[0][1:-len("_is_unknown")] for k, v in st.items()
+                               if k[0].startswith("_") and k[0].endswith("_is_unknown") and v is True}
                 for cn in variants(plan[idx][0]):
+                    if unknown_now and any(ed.get("cond") is not None and mentions(ed["cond"], unknown_now)
+                                           for ed in acts[cn].get("effects", [])):
+                        cond_reads_unknown[0] = True
                     for ps in rs.ground_instances(cn):
                         budget[0] -= 1
                         if budget[0] < 0:
@@ -267,7 +285,13 @@ class MetaSim(SimEngine):
 
             if follow(rs.initial_state(), 0):
                 return ""
-            return "/stale-value-of-unknown-fluent-out-of-bounds" if any(w == "bound" and u for w, u in blocked) else ""
+            if any(w == "bound" and u for w, u in blocked):
+                return "/stale-value-of-unknown-fluent-out-of-bounds"
+            if cond_reads_unknown[0]:
+                # every variant sequence either got stuck or missed the goal, and on the way a conditional effect
+                # evaluated its condition on the stale value of a fluent flagged unknown
+                return "/stale-value-of-unknown-fluent-read-by-effect-condition"
+            return ""
         except Exception:
             return ""
 
